@@ -333,11 +333,19 @@ pub fn run_bytes(case: &Case, out: &mut Outcome) -> Option<Failure> {
     }
     // the input, chunked, with the read fault at its offset
     let (cut, is_err) = match case.fault {
-        Fault::Eof(k) => (Some((k as usize).min(case.bytes.len())), false),
-        Fault::ReadErr(k) => (Some((k as usize).min(case.bytes.len())), true),
+        Fault::Eof(k) => (Some(k as usize), false),
+        Fault::ReadErr(k) => (Some(k as usize), true),
         _ => (None, false),
     };
-    let data = &case.bytes[..cut.unwrap_or(case.bytes.len())];
+    // inputs too large to be carried in the case: built here from the label
+    let huge: Vec<u8>;
+    let all_bytes: &[u8] = if let Some(n) = case.label.strip_prefix("huge-publish/").and_then(|s| s.parse::<usize>().ok()) {
+        huge = rc::encode(&rc::Packet::Publish(rc::Publish { qos: 1, pid: Some(9), topic: "huge".into(), payload: vec![0xa5; n], ..Default::default() }), &rc::Form::canonical());
+        &huge
+    } else {
+        &case.bytes
+    };
+    let data = &all_bytes[..cut.unwrap_or(all_bytes.len()).min(all_bytes.len())];
     w.tick();
     if case.chunk == 0 {
         w.reader.feed(data.to_vec());
@@ -506,6 +514,13 @@ impl Property for C04 {
                         v.push(Case { phase, label: "type-x-short-body".into(), bytes: b.clone(), chunk: 0, fault: Fault::None });
                     }
                 }
+            }
+        }
+        // packets whose remaining length needs 3 and 4 bytes (16 KiB .. 2 MiB + 1), whole and in
+        // 64 KiB - 1 reads, followed by the serving probe
+        for n in [16_384usize, 2_097_100, 2_097_152, 2_200_000] {
+            for chunk in [0u16, 65_535] {
+                v.push(Case { phase: Phase::Run, label: format!("huge-publish/{n}"), bytes: vec![], chunk, fault: Fault::None });
             }
         }
         let streams: Vec<Vec<u8>> = vec![
